@@ -1,6 +1,7 @@
 (* props/C03.v -- every produced data is accepted and verifiable by any other peer.
    Only pinned statements, [exact], non-vacuity examples and Print Assumptions. *)
-From Aqua Require Import Base Json Air Trace Handler Values Scalars Lens Exec RunExec ExecStreams SignSpec SignProofs.
+From Aqua Require Import Base Json Air Trace Handler Values Scalars Lens Exec RunExec ExecStreams ExecCases SignSpec SignProofs.
+From Aqua Require Import SignWitness SignWitnessProofs.
 From Aqua Require Sig RunTop.
 From Coq Require Import Permutation.
 Open Scope N_scope.
@@ -51,6 +52,17 @@ Proof. exact (C03_accepted_holds stream_instr finish_streams). Qed.
 (* signatures of other peers carried along *)
 Theorem C03_foreign_partial : C03_foreign_partial_stmt.
 Proof. exact C03_foreign_partial_holds. Qed.
+
+(* ... and the full statement about them is REFUTED by the faithful model on a real run (the stream-fold cursor hole,
+   DESIGN 7-11, known finding stream-fold-cursor-hole): D's produced data attributes 3 results to A, the signature kept for A
+   covers 4; the model agrees with the implementation on that run *)
+Theorem C03_foreign_refuted : ~ C03_foreign_full stream_instr finish_streams.
+Proof. exact SignWitnessProofs.C03_foreign_refuted. Qed.
+Theorem C03_full_refuted : ~ C03_full.
+Proof. exact (fun H => SignWitnessProofs.C03_foreign_refuted (proj2 (proj2 (proj2 (proj2 H))))). Qed.
+Theorem C03_foreign_refuted_is_real :
+  check_case hole_case = true /\ Nat.eqb (length (attributed_cids (eo_trace (ec_obs hole_case)) hole_peer_a)) 3 = true.
+Proof. exact SignWitnessProofs.hole_is_real. Qed.
 
 (* version of produced data >= minimal supported version; the decisive source lines are the ones read today *)
 Theorem C03_version : C03_version_stmt.
@@ -144,5 +156,8 @@ Print Assumptions C03_sig_verifies.
 Print Assumptions C03_store_closed.
 Print Assumptions C03_accepted.
 Print Assumptions C03_foreign_partial.
+Print Assumptions C03_foreign_refuted.
+Print Assumptions C03_full_refuted.
+Print Assumptions C03_foreign_refuted_is_real.
 Print Assumptions C03_version.
 Print Assumptions C03_source_tie.
